@@ -234,13 +234,14 @@ func (ElementReporter).Process returns (err)
   ensures err == nil
 
 func (ElementReporter).Flush returns (err)
-  props C17 C08
+  props C17 C08 C07
   requires @args er.output != nil
   modifies ghost(bufSticky, sinkFailed, sinkPend, prLen, prSink, prArg, prArgs)
+  ensures @one-line-per-row [C07] err == nil ==> prLen == old(prLen) + len(er.list)
   ensures @sink [C17] BufStep(er.output)
   ensures @reports-loss [C17] err == nil ==> !bufSticky[er.output] || old(bufSticky[er.output])
   ensures @flushed [C17] err == nil ==> !bufSticky[er.output] && sinkPend[bufSink[er.output]] == 0
-  loop 1 { invariant @sink er == old(er) && BufStep(er.output) && bufSticky[er.output] == old(bufSticky[er.output]) }
+  loop 1 { invariant @sink er == old(er) && BufStep(er.output) && bufSticky[er.output] == old(bufSticky[er.output]) && prLen == old(prLen) + #i }
 
 // ---------------------------------------------------------------------------------------------
 // the report commands
@@ -309,23 +310,31 @@ func ReportQuantity returns (err)
   ensures @log-malformed [C09] err == nil ==> (forall i int :: {RdLine(lrd, i)} 0 <= i && i < RdN(lrd) ==> !Malformed(lrd, i, cc))
   ensures @reports-loss [C17] err == nil ==> (sinkFailed[out] ==> old(sinkFailed[out])) && sinkPend[out] == 0
 
+// number of entries named x among the first j of a list
+fun CntName(l seq[Element], j int, x string) int := if j <= 0 then 0 else CntName(l, j - 1, x) + (if l[j-1].Name == x then 1 else 0)
+// rbase[p]: number of rows collected before the p-th recipe (in name order) is visited
+ghost rbase seq[int]
+ghost rowsN int   // number of rows collected by ReportElement
+
 // report element-total: the recipes are visited in strictly increasing order of their names, so the list handed to
 // the stable sort (by amount) is a function of the resolved book alone (C05)
 func ReportElement returns (err)
-  props C08 C09 C10 C17 C05
+  props C08 C09 C10 C17 C05 C07
   requires @streams dbStream != nil
   requires @sink rec.ReporterConfig.Output != nil && !typeis(rec.ReporterConfig.Output, "*bufio.Writer") && !typeis(rec.ReporterConfig.Output, "*encoding/csv.Writer")
   calluse Resolve#1 any
   calluse SliceStable#1 elements
   calluse SliceStable#2 elements
   modifies *
-  modifies ghost(cbLen, cbErr, cbNode, cbStop, cbRet, cbLineNo, cbLine, cbHeader, cbElems, cbNElems, scRd, scPos, privLo, evOf, accKey, accP, accN, accH, bufSink, bufSticky, sinkFailed, sinkPend, prLen, prSink, prArg, prArgs, csvLen, csvW, csvN, csvRow, tnodes, tdepth, tmax, tmapOf, jlen, tvLen, tv, tseg, tvSet, procLen, procTime, procSrc)
+  modifies ghost(cbLen, cbErr, cbNode, cbStop, cbRet, cbLineNo, cbLine, cbHeader, cbElems, cbNElems, scRd, scPos, privLo, evOf, accKey, accP, accN, accH, bufSink, bufSticky, sinkFailed, sinkPend, prLen, prSink, prArg, prArgs, csvLen, csvW, csvN, csvRow, tnodes, tdepth, tmax, tmapOf, jlen, tvLen, tv, tseg, tvSet, procLen, procTime, procSrc, rbase, rowsN)
   let out := payload(rec.ReporterConfig.Output)
   let drd := payload(dbStream)
   let cc := rec.ParserConfig.CommentChar
   ensures @book-unreadable [C10] err == nil ==> !RdFailed(drd)
   ensures @book-malformed [C09] err == nil ==> (forall i int :: {RdLine(drd, i)} 0 <= i && i < RdN(drd) ==> !Malformed(drd, i, cc))
   ensures @reports-loss [C17] err == nil ==> (sinkFailed[out] ==> old(sinkFailed[out])) && sinkPend[out] == 0
+  // C07: one row per (recipe, resolved entry named ElementName) - as many rows as the resolved-book CSV has for that element
+  ensures @row-count [C07] err == nil ==> prLen == old(prLen) + rowsN
   loop 1 {
     invariant @count len(names) == #it && arr(names) != 0 && fresh(arr(names)) && nl == at(pre1, nl) && mapval(nl) == at(pre1, mapval(nl)) && (forall k string :: {nl[k]} k in nl ==> nl[k] != nil)
     invariant @copied forall j int :: {names[j]} 0 <= j && j < #it ==> names[j] == #ord[j]
@@ -340,13 +349,25 @@ func ReportElement returns (err)
     forget call
   }
   loop 2 {
+    pre { set rbase := store(rbase, 0, 0) }
+    end { let p1 := #i + 1; set rbase := store(rbase, p1, len(list)) }
+    invariant @disjoint (arr(list) == 0 || arr(list) >= at(pre2, alloc())) && (forall k string :: {nl[k]} k in nl ==> arr(mapget(nl, k).Elements) < at(pre2, alloc())) && arr(names) < at(pre2, alloc())
+    invariant @rows [C07] rbase[0] == 0 && len(list) == rbase[#i] && (forall p int :: {rbase[p]} 0 <= p && p < #i ==> rbase[p + 1] == rbase[p] + CntName(elems(mapget(nl, names[p]).Elements), len(mapget(nl, names[p]).Elements), rec.ElementName))
     invariant @inv nl == at(pre2, nl) && mapval(nl) == at(pre2, mapval(nl)) && (forall k string :: {nl[k]} k in nl ==> nl[k] != nil) && (arr(list) == 0 || fresh(arr(list))) && arr(names) != arr(list) && fresh(arr(names))
     invariant @keys forall p int :: {names[p]} 0 <= p && p < len(names) ==> names[p] in nl
     invariant @untouched bufSink == old(bufSink) && bufSticky == old(bufSticky) && sinkFailed == old(sinkFailed) && sinkPend == old(sinkPend)
   }
   loop 3 {
+    pre { unfold CntName(elems(#coll), 0, rec.ElementName) }
+    invariant @rows [C07] rbase[0] == 0 && len(list) == rbase[#i2] + CntName(elems(#coll), #i, rec.ElementName) && (forall p int :: {rbase[p]} 0 <= p && p < #i2 ==> rbase[p + 1] == rbase[p] + CntName(elems(mapget(nl, names[p]).Elements), len(mapget(nl, names[p]).Elements), rec.ElementName)) && elems(#coll) == elems(mapget(nl, names[#i2]).Elements) && len(#coll) == len(mapget(nl, names[#i2]).Elements) && 0 <= #i2 && #i2 < len(names)
+    end { let j1 := #i + 1; unfold CntName(elems(#coll), j1, rec.ElementName) }
+    invariant @disjoint (arr(list) == 0 || arr(list) >= at(pre2, alloc())) && (forall k string :: {nl[k]} k in nl ==> arr(mapget(nl, k).Elements) < at(pre2, alloc())) && arr(names) < at(pre2, alloc())
     invariant @inv nl == at(pre2, nl) && mapval(nl) == at(pre2, mapval(nl)) && (forall k string :: {nl[k]} k in nl ==> nl[k] != nil) && (arr(list) == 0 || fresh(arr(list))) && arr(names) != arr(list) && fresh(arr(names))
     invariant @keys forall p int :: {names[p]} 0 <= p && p < len(names) ==> names[p] in nl
     invariant @untouched bufSink == old(bufSink) && bufSticky == old(bufSticky) && sinkFailed == old(sinkFailed) && sinkPend == old(sinkPend)
+  }
+  ghost before call 1 NewElementReporter {
+    assert @one-row-per-matching-entry [C07] len(list) == rbase[len(names)] && rbase[0] == 0 && (forall p int :: {rbase[p]} 0 <= p && p < len(names) ==> rbase[p + 1] == rbase[p] + CntName(elems(mapget(nl, names[p]).Elements), len(mapget(nl, names[p]).Elements), rec.ElementName))
+    set rowsN := len(list)
   }
 @*/
